@@ -163,9 +163,35 @@ static void fake_setup(int n, int w, long chunk)
 
 static char *c08_prev_txt[C08_MAXQ];
 static long  c08_prev_lk[C08_MAXQ];
+
+/* ---- extension (pointer layer, mode m1p): the heap SHAPE is printed, not only the list: both counters, head, tail,
+ * the forward walk (next pointers from head) and, independently, the backward walk (prev pointers from tail); the
+ * pointer-level model (coq/theories/TQueue/PtrScan.v, pm_step) prints the same from its own heap */
+static int dump_ptr = 0;
+static void print_audit_ptr(void)
+{
+    for (int i = 0; i < FN; i++) {
+        qt_threadqueue_t *q = fsh[i].ready;
+        long              n = 0;
+        printf(" q%d[%ld,%ld] H=", i, q->qlength, q->qlength_stealable);
+        if (q->head) printf("%u", q->head->value->thread_id); else printf("-");
+        printf(" T=");
+        if (q->tail) printf("%u", q->tail->value->thread_id); else printf("-");
+        printf(" F:");
+        for (qt_threadqueue_node_t *c = q->head; c && n < 4096; c = c->next, n++) printf(" %u:%d", c->value->thread_id, (int)c->stealable);
+        if (n == 4096) printf(" CYCLE");
+        printf(" B:");
+        n = 0;
+        for (qt_threadqueue_node_t *c = q->tail; c && n < 4096; c = c->prev, n++) printf(" %u", c->value->thread_id);
+        if (n == 4096) printf(" CYCLE");
+    }
+    printf("\n");
+}
+
 static void print_audit(void)
 {
     static char buf[1 << 16], cur[1 << 16];
+    if (dump_ptr) { print_audit_ptr(); return; }
     for (int i = 0; i < FN; i++) {
         long c, s;
         audit_queue(fsh[i].ready, buf, sizeof buf, &c, &s);
@@ -622,6 +648,7 @@ int main(int argc, char **argv)
     if (argc >= 2 && !strcmp(argv[1], "live")) return mode_live();
     qthread_initialize();
     if (argc >= 2 && !strcmp(argv[1], "m1")) return mode_m1();
+    if (argc >= 2 && !strcmp(argv[1], "m1p")) { dump_ptr = 1; return mode_m1(); }
     if (argc >= 9 && !strcmp(argv[1], "stress"))
         return mode_stress(atoi(argv[2]), atoi(argv[3]), atol(argv[4]), atol(argv[5]), atoi(argv[6]), atoi(argv[7]), strtoull(argv[8], NULL, 10));
     fprintf(stderr, "usage: c08_tqueue m1|live|stress n w total chunk ymax unst_pct seed\n");
